@@ -633,6 +633,6 @@ _jobs2 = jobs
 
 def jobs(tier):
     out = _jobs2(tier)
-    out.append(dict(id='index.lookup_during_replace', func='ob_index_lookup_replace', params=dict(N=1, policy='none'), tags=['C12', 'C05'], functions=INDEX_F + ['core.Cache.get'],
+    out.append(dict(id='index.lookup_during_replace', func='ob_index_lookup_replace', params=dict(N=1, policy='none'), tags=['C12'], functions=INDEX_F + ['core.Cache.get'],
                     weight=5))
     return out
